@@ -257,7 +257,7 @@ impl Session {
                             o.other = Some(l);
                         }
                     }
-                    Ok(Err(e)) => o.ret = Ret::Res(Err(e)),
+                    Ok(Err(e)) => o.ret = Ret::Res(Err(e.replace(&path.display().to_string(), "<file>"))),
                     Err(p) => o.panic = Some(p),
                 }
             }
@@ -281,6 +281,9 @@ impl Session {
                             Op::Add(v) => hg.add(*v),
                             Op::Bind(a, b, l) => hg.bind(*a, *b, *l),
                             Op::Put(v, d) => hg.put(*v, &d.to_hex()),
+                            Op::Data(v) => {
+                                let _ = hg.data(*v);
+                            }
                             _ => {}
                         }
                     }
@@ -535,7 +538,7 @@ pub fn exec_raw(
                     }
                     Ret::Res(Ok(String::new()))
                 }
-                Err(e) => Ret::Res(Err(e)),
+                Err(e) => Ret::Res(Err(e.replace(&path.display().to_string(), "<file>"))),
             }
         }
         Op::Slice(v) => match g.slice(*v) {
@@ -550,6 +553,9 @@ pub fn exec_raw(
                     Op::Add(v) => hg.add(*v),
                     Op::Bind(a, b, l) => hg.bind(*a, *b, *l),
                     Op::Put(v, d) => hg.put(*v, &d.to_hex()),
+                    Op::Data(v) => {
+                        let _ = hg.data(*v);
+                    }
                     _ => {}
                 }
             }
